@@ -554,6 +554,10 @@ func (c *Conn) readRecord() error {
 func (c *Conn) readChangeCipherSpec() error {
 	if c.in.deferredCCS {
 		c.in.deferredCCS = false
+		// 同上：延迟的 CCS 生效时 handBuf 必须已被读空
+		if c.handBuf.Len() > 0 {
+			return c.in.setErrorLocked(c.sendAlert(alertUnexpectedMessage))
+		}
 		if err := c.in.changeCipherSpec(); err != nil {
 			return c.in.setErrorLocked(c.sendAlert(err.(alert)))
 		}
@@ -762,6 +766,11 @@ func (c *Conn) readRecordOrCCS(expectChangeCipherSpec bool) error {
 			if !expectChangeCipherSpec && c.handBuf.Len() > 0 {
 				c.in.deferredCCS = true
 				return nil
+			}
+			// 握手消息不允许跨越 CCS：期待 CCS 时 handBuf 中仍有未读的握手数据，
+			// 说明对端在 CCS 之前（未加密）发送了应在其后的消息（如 Finished），与 TLCP 一致拒绝。
+			if c.handBuf.Len() > 0 {
+				return c.in.setErrorLocked(c.sendAlert(alertUnexpectedMessage))
 			}
 			if !expectChangeCipherSpec {
 				return c.in.setErrorLocked(c.sendAlert(alertUnexpectedMessage))
